@@ -85,7 +85,7 @@ func genCorruptions(r *Rng, nbits int, tier string) []corruption {
 	}
 	// odd-weight patterns (3, 5, 7 or 9 flipped bits anywhere in the frame): the generator has the
 	// factor x+1, so none of them can pass (Props/C06Odd: odd_weight_detected, any frame length)
-	for i := 0; i < scale(tier, 60, 2500) && nbits >= 9; i++ {
+	for i := 0; i < scale(tier, 60, 1000) && nbits >= 9; i++ {
 		k := 3 + 2*r.Intn(4)
 		seen := map[int]bool{}
 		var bits []int
